@@ -25,10 +25,29 @@ type xfHFault struct {
 	At      int64  `json:"at"`
 	Err     string `json:"err"`
 	Partial bool   `json:"partial,omitempty"`
+	// a second fault further out (C13: "the error is the one belonging to the lowest failing offset"): a ReadAt / WriteAt
+	// that STARTS at or beyond At2 (> At) moves nothing and returns the error Err2 names (another value than Err)
+	At2  int64  `json:"at2,omitempty"`
+	Err2 string `json:"err2,omitempty"`
+	// Span > 0: only the bytes [At, At+Span) are out of reach (a bad sector, a lost object of a chunked store): a request
+	// that lies wholly beyond them is served. 0: everything from At on.
+	Span int64 `json:"span,omitempty"`
+}
+
+// touches: a request for [off, off+n) meets the fault.
+func (f xfHFault) touches(off int64, n int) bool {
+	return n > 0 && off+int64(n) > f.At && (f.Span <= 0 || off < f.At+f.Span)
 }
 
 func (f xfHFault) String() string {
-	return fmt.Sprintf("%s@%d=%s/p%d", f.Op, f.At, f.Err, xfB(f.Partial))
+	t := fmt.Sprintf("%s@%d=%s/p%d", f.Op, f.At, f.Err, xfB(f.Partial))
+	if f.Err2 != "" {
+		t += fmt.Sprintf("+@%d=%s", f.At2, f.Err2)
+	}
+	if f.Span > 0 {
+		t += fmt.Sprintf("/span%d", f.Span)
+	}
+	return t
 }
 
 type xfBackendErr struct{ msg string }
@@ -100,7 +119,7 @@ func xfHErrByName(name string) (xfHErrKind, bool) {
 func (m *xfMemFS) SetFault(f *xfHFault) error {
 	m.mu.Lock()
 	defer m.mu.Unlock()
-	m.fault, m.faultErr, m.faultHit = nil, nil, 0
+	m.fault, m.faultErr, m.faultErr2, m.faultHit = nil, nil, nil, 0
 	if f == nil {
 		return nil
 	}
@@ -108,8 +127,16 @@ func (m *xfMemFS) SetFault(f *xfHFault) error {
 	if !ok || (f.Op != "read" && f.Op != "write") {
 		return fmt.Errorf("unknown handler fault %+v", *f)
 	}
+	var e2 error
+	if f.Err2 != "" {
+		k2, ok := xfHErrByName(f.Err2)
+		if !ok || f.At2 <= f.At {
+			return fmt.Errorf("unknown second handler fault %+v", *f)
+		}
+		e2 = k2.Err
+	}
 	c := *f
-	m.fault, m.faultErr, m.applied = &c, k.Err, nil
+	m.fault, m.faultErr, m.faultErr2, m.applied = &c, k.Err, e2, nil
 	return nil
 }
 
@@ -124,11 +151,11 @@ func xfFaultReached(cs xfCase) bool {
 	}
 	switch {
 	case cs.API == "WriteTo":
-		return ft.Op == "read" // it reads until the server says end of file
+		return ft.Op == "read" && (ft.Span <= 0 || cs.Off < ft.At+ft.Span) // it reads until the server says end of file
 	case cs.IsRead():
-		return ft.Op == "read" && cs.Len > 0 && cs.Off+int64(cs.Len) > ft.At
+		return ft.Op == "read" && ft.touches(cs.Off, cs.Len)
 	}
-	return ft.Op == "write" && cs.Len > 0 && cs.Off+int64(cs.Len) > ft.At
+	return ft.Op == "write" && ft.touches(cs.Off, cs.Len)
 }
 
 // xfC01FaultCheck is the oracle of a transfer whose handler fails at HFault.At (the caller has made sure that the
